@@ -20,11 +20,11 @@ type Elem struct {
 }
 
 type TagInfo struct {
-	Type    string
-	Const   string
-	Marker  string
-	Elems   []Elem
-	Index   int
+	Type     string
+	Const    string
+	Marker   string
+	Elems    []Elem
+	Index    int
 	MsgField string // field of FEDWireMessage holding *Type
 	MsgJSON  string
 	MsgOmit  bool
@@ -287,7 +287,9 @@ func lengthPlus(e ast.Expr) (int, bool) {
 	return 0, false
 }
 
-func (c *Ctx) unsupportedP(n ast.Node) string { return fmt.Sprintf("PUnsupported %s", coqString(short(c.src1(n)))) }
+func (c *Ctx) unsupportedP(n ast.Node) string {
+	return fmt.Sprintf("PUnsupported %s", coqString(short(c.src1(n))))
+}
 
 // parseSteps translates <Type>.Parse.
 func (c *Ctx) parseSteps(t *TagInfo) []string {
@@ -607,7 +609,9 @@ func (c *Ctx) accessorStep(t *TagInfo, method string, withDelim bool) (string, b
 	return "", false
 }
 
-func (c *Ctx) unsupportedF(n ast.Node) string { return fmt.Sprintf("FUnsupported %s", coqString(short(c.src1(n)))) }
+func (c *Ctx) unsupportedF(n ast.Node) string {
+	return fmt.Sprintf("FUnsupported %s", coqString(short(c.src1(n))))
+}
 
 // formatSteps translates <Type>.Format(options) if present, else <Type>.String().
 func (c *Ctx) formatSteps(t *TagInfo) (steps []string, takesOptions bool) {
